@@ -9,7 +9,7 @@
     [ev_valid] excludes only the empty key in Put/Get/Delete (the property is about non-empty keys;
     query arguments may be empty). *)
 From Coq Require Import List NArith ZArith Lia.
-From Algo.C06 Require Import Spec SpecFacts Model ModelPat ProofsBin ProofsBinQ ProofsBinMain PatSweep PatInv PatBits PatTree PatMatch PatDel PatPut.
+From Algo.C06 Require Import Spec SpecFacts Model ModelPat ProofsBin ProofsBinQ ProofsBinMain PatSweep PatInv PatBits PatTree PatMatch PatDel PatPut PatRem PatRemH.
 Import ListNotations.
 
 Local Notation a := 97%N.
@@ -204,6 +204,36 @@ Theorem C06_patricia_remove_pointers :
        else ROk (t, None)).
 Proof. intros V t r0 rn c T d check I. exact (p_delete_dir_pointers t r0 rn c T d check I). Qed.
 
+(** The re-linking cases of remove, up to the three heap writes.  [tdel] is the tree transformer of
+    a removal (the last inner node [r] of the path is replaced by its other child; the inner node
+    [n] — the target, an ancestor of [r], or the root — hands its position to [r]).
+    [relinked h H' kk n r rp np co] says that heap [H'] implements the re-linking on [h]: every node
+    other than [r] keeps its bit position and its links, except that [rp]'s link to [r] leads to
+    [r]'s other child [co], [np]'s link to [n] leads to [r], and node [r] carries [n]'s record
+    (keys and values stay with their nodes).  For every such [H'] the state after the removal has
+    the new root record, represents [tdel T], keeps ownership, distinct threads and inner nodes and
+    the bit invariant, and its threads are those of [T] without [n] (so its contents are the
+    specification's [sdel]).  NOT proved: that the heap computed by [p_remove] (three writes with
+    aliasing between n, r, rp, np) satisfies [relinked]; removal of a held key from a trie with two or
+    more keys therefore still rests on the bounded sweep and the correspondence. *)
+Theorem C06_patricia_remove_relinked_partial :
+  forall (V : Type) (h H' : list (pnode V)) kk n r rp np co r0 rn0 c0 T,
+    relinked h H' kk n r rp np co ->
+    nth_error h r0 = Some rn0 -> n_bp rn0 = 0%Z -> n_left rn0 = Some c0 -> n_right rn0 = None ->
+    Rep h 0 c0 T -> is_leaf T = false ->
+    NoDup (inners T) -> NoDup (leaves T) -> owns T -> tbits (nbp h) (nkey h) T -> In r0 (leaves T) ->
+    ts (nbp h) kk T = n -> referrer h (ByKey kk) T r0 r0 = (rp, r) ->
+    (In n (inners T) -> nparent h (ByKey kk) n T r0 = np) -> (~ In n (inners T) -> np = r) ->
+    let T' := tdel (nbp h) kk n r T in
+    let root' := rho n r r0 in
+    exists rn0', nth_error H' root' = Some rn0' /\ n_bp rn0' = 0%Z /\
+      n_left rn0' = Some (newlink h kk n r co T c0) /\ n_right rn0' = None /\
+      Rep H' 0 (newlink h kk n r co T c0) T' /\ owns T' /\ NoDup (leaves T') /\ NoDup (inners T') /\
+      In root' (leaves T') /\ tbits (nbp H') (nkey H') T' /\
+      (forall j, In j (leaves T') <-> In j (leaves T) /\ j <> n) /\
+      (forall j, In j (leaves T') -> nkey H' j = nkey h j).
+Proof. intros V. exact (@remove_relinked V). Qed.
+
 (** the bit-level facts behind it: DiffPos and the order of the zero padded bit strings *)
 Theorem C06_diffpos_spec : forall x y, kvalid x -> kvalid y -> x <> y ->
   (1 <= diffpos x y)%Z /\
@@ -274,6 +304,7 @@ Print Assumptions C06_patricia_delete_absent.
 Print Assumptions C06_refines_patricia_partial.
 Print Assumptions C06_patricia_put_keeps_ownership.
 Print Assumptions C06_patricia_remove_pointers.
+Print Assumptions C06_patricia_remove_relinked_partial.
 Print Assumptions C06_diffpos_spec.
 Print Assumptions C06_bit_order_is_lexicographic.
 Print Assumptions C06_patricia_bounded_partial.
